@@ -82,10 +82,10 @@ type ufSig struct {
 type TermManager struct {
 	tab    map[string]*Term
 	nextID int
-	vars   map[string]int    // var name -> width (0 bool)
-	arrays map[string]bool   // declared byte arrays
-	ufs    map[string]ufSig  // UF name -> signature
-	strs   map[string]bool   // String-sorted variables (C11)
+	vars   map[string]int   // var name -> width (0 bool)
+	arrays map[string]bool  // declared byte arrays
+	ufs    map[string]ufSig // UF name -> signature
+	strs   map[string]bool  // String-sorted variables (C11)
 	fresh  int
 	True   *Term
 	False  *Term
